@@ -78,6 +78,7 @@ struct Inst {
 	bool loggerOn = true;
 	// C03 lifecycle history
 	bool entered[HV_NS]; const void* addr[HV_NS];
+	bool inUpdateOrReact = false;
 	bool outstandingMarks = false;   // success/failure marks set outside update()/react() (externally or from a guard) not yet consumed
 	bool modelValid = true;          // false after an op the configuration model does not cover (resynchronised afterwards)
 	bool plansUsed = false;
@@ -156,6 +157,12 @@ struct Walker {
 			S.violation(p.c_str(), l.substr(4) + " (during " + what + ", step " + std::to_string(S.stepNo) + ")");
 		}
 		if (x.overflow) st.cls("trace_overflow");
+		{ bool inRound = false;
+		  for (int i = 0; i < x.n; ++i) { const Ev& e = x.tr[i];
+			if (e.kind == E_ACT_PLAN) in.plansUsed = true;
+			if (e.kind == E_ROUND) inRound = true;
+			// marks set while transitions are being processed are not consumed by this step's plan update
+			if ((e.kind == E_ACT_SUCCEED || e.kind == E_ACT_FAIL) && (inRound || !in.inUpdateOrReact)) in.outstandingMarks = true; } }
 		// C11: library assertions
 		auto& b = hv::breaks();
 		if (b.count) {
@@ -176,8 +183,18 @@ struct Walker {
 			if (cachedFile != b.file) { cachedFile = b.file; lines.clear(); FILE* f = std::fopen(b.file, "r"); if (f) { char l[1024]; while (std::fgets(l, sizeof l, f)) lines.push_back(l); std::fclose(f); } }
 			const std::string text = b.line >= 1 && b.line <= (int) lines.size() ? lines[b.line - 1] : "";
 			// F23: a state that carries a success/failure mark set outside update()/react() is (re-)entered
-			bool guardMark = false; for (int i = 0; i < in.ctx.n; ++i) if ((in.ctx.tr[i].kind == E_ACT_SUCCEED || in.ctx.tr[i].kind == E_ACT_FAIL)) guardMark = true;
+			bool guardMark = false; { bool inRound = false; for (int i = 0; i < in.ctx.n; ++i) { if (in.ctx.tr[i].kind == E_ROUND) inRound = true; if ((in.ctx.tr[i].kind == E_ACT_SUCCEED || in.ctx.tr[i].kind == E_ACT_FAIL) && (inRound || !in.inUpdateOrReact)) guardMark = true; } }
 			if ((in.outstandingMarks || guardMark) && (text.find("!tasksSuccesses.get(stateId)") != std::string::npos || text.find("!tasksFailures .get(stateId)") != std::string::npos)) return S.known("F23");
+		}
+		// F29: destination = an orthogonal region without any composite ancestor
+		if (b.file) {
+			FILE* f = std::fopen(b.file, "r"); std::string text; if (f) { char l[1024]; int n = 0; while (std::fgets(l, sizeof l, f)) if (++n == b.line) { text = l; break; } std::fclose(f); }
+			if (text.find("HFSM2_ASSERT(!!requested)") != std::string::npos) {
+				bool degenerate = false;
+				for (int i = 0; i < in.ctx.n; ++i) { const Ev& e = in.ctx.tr[i]; if ((e.kind == E_ACT_REQ || e.kind == E_PEND || e.kind == E_LOG_TRANSITION) && e.a != T_SCHEDULE && e.b > 0 && e.b < HV_NS && node(e.b).kind == ORTHO) { bool onlyOrtho = true; for (int c = node(e.b).parent; c >= 0; c = node(c).parent) if (node(c).kind != ORTHO) onlyOrtho = false; if (onlyOrtho) degenerate = true; } }
+				for (auto& q : in.queued) if (q.type != T_SCHEDULE && q.dest > 0 && node(q.dest).kind == ORTHO) { bool onlyOrtho = true; for (int c = node(q.dest).parent; c >= 0; c = node(c).parent) if (node(c).kind != ORTHO) onlyOrtho = false; if (onlyOrtho) degenerate = true; }
+				if (degenerate) return S.known("F29");
+			}
 		}
 		// F14: the request queue is not empty after the substitution limit was reached
 		if (in.ctx.rounds >= HV_SUBST_LIMIT && b.file) {
@@ -262,6 +279,19 @@ struct Walker {
 	// ---- one processing step judged against the configuration model (C02, C04, C09, C13, C14) ----
 	void judgeProcessing(Inst& in, const char* what, const Cfg& before, const bool wasActive[HV_NS]);
 
+	// F27: an orthogonal region forwards guards only to the prongs requested by path once any prong is
+	static bool orthoGuardGap(const std::vector<Round>& rs, int s) {
+		for (int o = node(s).parent, child = s; o >= 0; child = o, o = node(o).parent) {
+			if (node(o).kind != ORTHO) continue;
+			const int myProng = node(child).prong; bool any = false, mine = false;
+			for (auto& r : rs) if (!r.cancelled) for (auto& p : r.pend) if (p.type != T_SCHEDULE && p.dest != o && Model::onPath(o, p.dest)) {
+				int c = p.dest; while (node(c).parent != o) c = node(c).parent;
+				any = true; if (node(c).prong == myProng) mine = true; }
+			if (any && !mine) return true;
+		}
+		return false;
+	}
+
 	void installScript(Inst& in, const Op& o, int n = 4) { Ctx& x = in.ctx; x.nscript = 0; for (int i = 0; i < n; ++i) if (o.script[i].action != A_NONE) { x.script[x.nscript] = o.script[i]; x.script[x.nscript].used = false; ++x.nscript; } }
 
 	void run();
@@ -319,6 +349,7 @@ void Walker::judgeProcessing(Inst& in, const char* what, const Cfg& before, cons
 			for (int i = rs[lastApproved].firstEv; i <= rs[lastApproved].lastEv; ++i) { const Ev& e = x.tr[i]; if (e.kind == E_CB && e.a == 0) { if (e.method == (uint8_t) Method::EXIT_GUARD) xg[e.state] = true; if (e.method == (uint8_t) Method::ENTRY_GUARD) ng[e.state] = true; } }
 			for (int i = firstLife; i < x.n; ++i) { const Ev& e = x.tr[i]; if (!isLifecycle(e) || e.a != 0) continue;
 				const bool ok = e.method == (uint8_t) Method::EXIT ? xg[e.state] : ng[e.state];
+				if (!ok && orthoGuardGap(rs, e.state) && S.known("F27")) continue;
 				if (!ok) { std::snprintf(buf, sizeof buf, "state %d received %s without its %s guard having been invoked in the last approved round (%s, step %u)", e.state, MN[e.method], e.method == (uint8_t) Method::EXIT ? "exit" : "entry", what, S.stepNo); S.violation("C04", buf); break; } }
 		}
 	}
@@ -349,7 +380,9 @@ void Walker::judgeProcessing(Inst& in, const char* what, const Cfg& before, cons
 			else { any = true; for (auto& p : r.pend) applied.push_back(p); }
 		}
 		// requests issued by guards of the last observed round that caused no further round (schedules, no-ops)
-		if (!rs.back().issued.empty() && (int) rs.size() < limit) for (auto& p : rs.back().issued) if (p.type == T_SCHEDULE) { Req q = p; saneRequest(q.type, q.dest); m.applyOne(q); hasSchedule = true; }
+		// (the library applies them; when they do not alter the requested configuration no guard round follows and they are not recorded -
+		//  but a schedule still marks its destination and a transition still flags the regions it walks through to be exited and entered: F15)
+		if (!rs.back().issued.empty() && (int) rs.size() < limit) { int taken = 0; for (auto& p : rs.back().issued) { if (taken++ >= HV_COMPO_COUNT) break; Req q = p; saneRequest(q.type, q.dest); if (q.type == T_SCHEDULE) hasSchedule = true; else st.cls("silent_round_transition_request"); m.applyOne(q); } }
 	}
 	if (rs.empty()) { for (auto& r : firstExpected) if (r.type != T_SCHEDULE) any = true; }
 	const bool libChanged = firstLife >= 0;
@@ -372,13 +405,14 @@ void Walker::judgeProcessing(Inst& in, const char* what, const Cfg& before, cons
 	// ---- C04 (d): nothing approved => nothing changes (except marks set by schedule)
 	if (!rs.empty() && lastApproved < 0) {
 		Cfg expect = before; Model tmp = m; tmp.cfg = before; tmp.clearReq();
-		for (auto& r : rs) { for (auto& p : r.pend) if (p.type == T_SCHEDULE) tmp.applyOne(p); for (auto& p : r.issued) if (p.type == T_SCHEDULE) { Req q = p; saneRequest(q.type, q.dest); tmp.applyOne(q); } }
+		for (auto& r : rs) for (auto& p : r.pend) if (p.type == T_SCHEDULE) tmp.applyOne(p);
+		if ((int) rs.size() < limit) { int taken = 0; for (auto& p : rs.back().issued) { if (taken++ >= HV_COMPO_COUNT) break; if (p.type == T_SCHEDULE) { Req q = p; saneRequest(q.type, q.dest); tmp.applyOne(q); } } }
 		expect = tmp.cfg;
 		if (!lib.sameActive(expect) || !lib.sameResumable(expect)) { std::snprintf(buf, sizeof buf, "every round was cancelled but the configuration changed: before %s after %s (%s, step %u)", before.str().c_str(), lib.str().c_str(), what, S.stepNo); S.violation("C04", buf); }
 	}
 	(void) libChanged; (void) wasActive;
 	// ---- C02: the prescribed configuration
-	if (in.modelValid && !m.randomNone) {
+	if (in.modelValid && !m.randomNone && !(RNG_BUILTIN && m.usedRandom)) {
 		const bool sameA = lib.sameActive(m.cfg), sameR = lib.sameResumable(m.cfg);
 		if (!(sameA && sameR)) {
 			if (overlap) {
@@ -418,9 +452,9 @@ void Walker::step(const Op& o, size_t index) {
 	bool wasActive[HV_NS]; for (int s = 0; s < HV_NS; ++s) wasActive[s] = in.on && f.isActive((StateID) s);
 	st.cls(std::string("op_") + OPN[o.kind]);
 	switch (o.kind) {
-	case OP_UPDATE: installScript(in, o); f.update(); afterCall(in, what, true); in.outstandingMarks = false; judgeProcessing(in, what, before, wasActive); break;
-	case OP_REACT_A: installScript(in, o); f.react(EvA{(int) o.a0}); afterCall(in, what, true); in.outstandingMarks = false; judgeProcessing(in, what, before, wasActive); break;
-	case OP_REACT_B: installScript(in, o); f.react(EvB{(int) o.a0}); afterCall(in, what, true); in.outstandingMarks = false; judgeProcessing(in, what, before, wasActive); break;
+	case OP_UPDATE: installScript(in, o); in.outstandingMarks = false; in.inUpdateOrReact = true; f.update(); afterCall(in, what, true); in.inUpdateOrReact = false; judgeProcessing(in, what, before, wasActive); break;
+	case OP_REACT_A: installScript(in, o); in.outstandingMarks = false; in.inUpdateOrReact = true; f.react(EvA{(int) o.a0}); afterCall(in, what, true); in.inUpdateOrReact = false; judgeProcessing(in, what, before, wasActive); break;
+	case OP_REACT_B: installScript(in, o); in.outstandingMarks = false; in.inUpdateOrReact = true; f.react(EvB{(int) o.a0}); afterCall(in, what, true); in.inUpdateOrReact = false; judgeProcessing(in, what, before, wasActive); break;
 	case OP_QUERY: case OP_QUERY_B: {
 		installScript(in, o);
 		if (o.kind == OP_QUERY) { EvA e{(int) o.a0}; const_cast<const Instance&>(f).query(e); } else { EvB e{(int) o.a0}; const_cast<const Instance&>(f).query(e); }
@@ -458,7 +492,7 @@ void Walker::step(const Op& o, size_t index) {
 		f.reset(); afterCall(in, what, true);
 		Model fresh; fresh.env = Env{x.sel, x.util, x.rank, x.rnd, 0}; fresh.initial();
 		const Cfg lib = readCfg(f);
-		if (!fresh.randomNone && (!lib.sameActive(fresh.cfg) || !lib.sameResumable(fresh.cfg))) S.violation("C02", "reset() did not re-activate the machine as its first activation would: library " + lib.str() + " prescribed " + fresh.cfg.str());
+		if (!fresh.randomNone && !(RNG_BUILTIN && fresh.usedRandom) && (!lib.sameActive(fresh.cfg) || !lib.sameResumable(fresh.cfg))) S.violation("C02", "reset() did not re-activate the machine as its first activation would: library " + lib.str() + " prescribed " + fresh.cfg.str());
 		in.model.cfg = lib; ++S.cfgChanges; break; }
 	case OP_ENTER_EXIT:
 		if (!MANUAL) break;
@@ -487,7 +521,7 @@ void Walker::firstActivation(Inst& in) {
 	const Cfg lib = readCfg(*in.fsm);
 	// entry guards may have issued requests during the activation: then the model does not apply
 	bool guardRequests = false; for (int i = 0; i < x.n; ++i) if (x.tr[i].kind == E_ACT_REQ) guardRequests = true;
-	if (!guardRequests && !m.randomNone && (!lib.sameActive(m.cfg) || !lib.sameResumable(m.cfg)))
+	if (!guardRequests && !m.randomNone && !(RNG_BUILTIN && m.usedRandom) && (!lib.sameActive(m.cfg) || !lib.sameResumable(m.cfg)))
 		S.violation("C02", "first activation: library " + lib.str() + " prescribed " + m.cfg.str());
 	m.cfg = lib; in.queued.clear(); in.queuedTags.clear();
 	enteredMatchesActive(in, "first activation");
